@@ -166,6 +166,7 @@ type vfEnv struct {
 	b     *blockHeaderStore
 	f     *filterHeaderStore
 	up    bool
+	assertNext bool
 	n, h  int
 	hdr   []*wire.BlockHeader
 	hash  []chainhash.Hash
@@ -226,7 +227,14 @@ func (e *vfEnv) open() error {
 		return fmt.Errorf("block store: %w", err)
 	}
 	e.b = b.(*blockHeaderStore)
-	f, err := NewFilterHeaderStore(e.dir, pdb, RegularFilter, &chaincfg.SimNetParams, nil)
+	var assertion *FilterHeader
+	if e.assertNext {
+		// a header state assertion that matches the stored genesis filter
+		// header: start-up must behave exactly as without it
+		assertion = &FilterHeader{Height: 0, FilterHash: e.fh[0]}
+	}
+	e.assertNext = false
+	f, err := NewFilterHeaderStore(e.dir, pdb, RegularFilter, &chaincfg.SimNetParams, assertion)
 	if err != nil {
 		e.closeAll()
 		return fmt.Errorf("filter store: %w", err)
@@ -504,6 +512,7 @@ func (e *vfEnv) exec(a vfAct) (vfAct, []vfStepOut) {
 		}
 	case "Reopen", "Recover":
 		e.closeAll()
+		e.assertNext = a.N == 1
 		if err := e.open(); err != nil {
 			out.Res = "err"
 		} else {
